@@ -62,6 +62,21 @@ def decide3 (s c : String) (haveMethod : Bool) : Bool :=
   else if s = lvlPreferred ∨ c = lvlPreferred then haveMethod
   else false
 
+/-- the level logic of `negotiateSecurity`, given whether a common method / cipher was found:
+    (error, authenticate?, encrypt?) -/
+def negotiateCore (sa ca se ce : String) (haveAuth haveCrypto : Bool) : Option NegErr × Bool × Bool :=
+  if sa = lvlRequired ∧ ca = lvlNever then (some .authIncompat, true, false)
+  else if sa = lvlNever ∧ ca = lvlRequired then (some .authIncompat, false, false)
+  else
+    let shouldAuth := decide3 sa ca haveAuth
+    if se = lvlRequired ∧ ce = lvlNever then (some .encIncompat, false, true)
+    else if se = lvlNever ∧ ce = lvlRequired then (some .encIncompat, false, false)
+    else
+      let shouldEnc := decide3 se ce haveCrypto
+      if shouldEnc ∧ ¬ haveCrypto then (some .noCrypto, shouldAuth, shouldEnc)
+      else if shouldAuth ∧ ¬ haveAuth then (some .noAuth, shouldAuth, shouldEnc)
+      else (none, shouldAuth, shouldEnc)
+
 /-- `negotiateSecurity`. Returns the decision (which the server also advertises in a failure
     response) and the error, if any.
     fix D11a: only methods this build implements count as common (PASSWORD is a stub);
@@ -69,18 +84,8 @@ def decide3 (s c : String) (haveMethod : Bool) : Bool :=
 def negotiate (srv cli : View) : Decision × Option NegErr :=
   let negAuth := (firstCommon (fun m => implemented m && m != authNone) srv.methods cli.methods).getD authNone
   let negCrypto := (firstCommon (fun _ => true) srv.ciphers cli.ciphers).getD ""
-  if srv.auth = lvlRequired ∧ cli.auth = lvlNever then (⟨negAuth, negCrypto, true, false⟩, some .authIncompat)
-  else if srv.auth = lvlNever ∧ cli.auth = lvlRequired then (⟨negAuth, negCrypto, false, false⟩, some .authIncompat)
-  else
-    let shouldAuth := decide3 srv.auth cli.auth (negAuth != authNone)
-    if srv.enc = lvlRequired ∧ cli.enc = lvlNever then (⟨negAuth, negCrypto, false, true⟩, some .encIncompat)
-    else if srv.enc = lvlNever ∧ cli.enc = lvlRequired then (⟨negAuth, negCrypto, false, false⟩, some .encIncompat)
-    else
-      let shouldEnc := decide3 srv.enc cli.enc (negCrypto != "")
-      let d : Decision := ⟨negAuth, negCrypto, shouldAuth, shouldEnc⟩
-      if shouldEnc ∧ negCrypto = "" then (d, some .noCrypto)
-      else if shouldAuth ∧ negAuth = authNone then (d, some .noAuth)
-      else (d, none)
+  let r := negotiateCore srv.auth cli.auth srv.enc cli.enc (negAuth != authNone) (negCrypto != "")
+  (⟨negAuth, negCrypto, r.2.1, r.2.2⟩, r.1)
 
 /-! ### key agreement, symbolically -/
 
@@ -98,13 +103,14 @@ def sharedKey (a b : Nat) : Nat := if a ≤ b then a * 2^32 + b else b * 2^32 + 
     AES-GCM protected) or none.
     fix D3c: if encryption was decided (or this endpoint's own policy requires encryption or
     integrity) and no key can be established, the handshake fails instead of continuing in clear. -/
+def estKey (negCrypto : String) (ownKey : Option Nat) (ownAdvertised : Bool) (peerKey : KeyKind) : Option Nat :=
+  match ownKey, peerKey with
+  | some a, .good b => if ownAdvertised ∧ negCrypto = cryptoAES then some (sharedKey a b) else none
+  | _, _ => none
+
 def setupEnc (ownEnc ownInteg : String) (decidedEnc : Bool) (negCrypto : String)
     (ownKey : Option Nat) (ownAdvertised : Bool) (peerKey : KeyKind) : Except Err (Option Nat) :=
-  let established : Option Nat :=
-    match ownKey, peerKey with
-    | some a, .good b => if ownAdvertised ∧ negCrypto = cryptoAES then some (sharedKey a b) else none
-    | _, _ => none
-  match established with
+  match estKey negCrypto ownKey ownAdvertised peerKey with
   | some k => .ok (some k)
   | none =>
     if decidedEnc ∨ ownEnc = lvlRequired ∨ ownInteg = lvlRequired then .error .refused
@@ -190,33 +196,34 @@ def clientLoop (offered : List String) (authOK : String → Bool) :
 
 def bitmaskOf (ms : List String) : Nat := ms.foldl (fun acc m => Nat.lor acc (authBit m)) 0
 
+/-- the authentication phase of the client (`handleClientAuthentication` + `exchangeKey`):
+    (did authenticate, method, exchanges run) -/
+def clientAuthPhase (cfg : ClientCfg) (srv : ServerScript) : Except Err (Bool × String × List (String × Bool)) :=
+  if srv.auth ≠ "YES" then
+    -- fix D3a: a client that REQUIRES authentication does not accept a server that declines it
+    if cfg.auth = lvlRequired then .error .refused else .ok (false, authNone, [])
+  else if srv.methods = [] then .error .refused
+  else
+    let offered := cfg.methods.filter (fun m => srv.methods.contains m && (!isTokenMethod m || cfg.tokenCompat))
+    if offered = [] then .error .refused
+    else match clientLoop offered srv.authOK (bitmaskOf offered) srv.replies [] with
+      | .success m ran =>
+        -- exchangeKey: the server's hasKey message
+        match srv.hasKeyMsg with
+        | some 0 => .ok (true, m, ran)
+        | _ => .error .eof
+      | .exhausted _ => .error .refused
+      | .protocolErr _ => .error .malformed
+
 /-- `performFullAuthentication` against an arbitrary server. -/
 def clientFull (cfg : ClientCfg) (srv : ServerScript) : Except Err Outcome :=
   -- graceful rejection by the server
   if rcRejected srv.returnCode then .error .refused
   else
-    let (d, nerr) := negotiate ⟨srv.auth, srv.enc, srv.methods, srv.ciphers⟩ ⟨cfg.auth, cfg.enc, cfg.methods, cfg.ciphers⟩
-    match nerr with
-    | some _ => .error .refused
-    | none =>
-      -- authentication phase: driven by the server's "YES"
-      let authPhase : Except Err (Bool × String × List (String × Bool)) :=
-        if srv.auth ≠ "YES" then
-          -- fix D3a: a client that REQUIRES authentication does not accept a server that declines it
-          if cfg.auth = lvlRequired then .error .refused else .ok (false, authNone, [])
-        else if srv.methods = [] then .error .refused
-        else
-          let offered := cfg.methods.filter (fun m => srv.methods.contains m && (!isTokenMethod m || cfg.tokenCompat))
-          if offered = [] then .error .refused
-          else match clientLoop offered srv.authOK (bitmaskOf offered) srv.replies [] with
-            | .success m ran =>
-              -- exchangeKey: the server's hasKey message
-              match srv.hasKeyMsg with
-              | some 0 => .ok (true, m, ran)
-              | _ => .error .eof
-            | .exhausted _ => .error .refused
-            | .protocolErr _ => .error .malformed
-      match authPhase with
+    match (negotiate ⟨srv.auth, srv.enc, srv.methods, srv.ciphers⟩ ⟨cfg.auth, cfg.enc, cfg.methods, cfg.ciphers⟩) with
+    | (_, some _) => .error .refused
+    | (d, none) =>
+      match clientAuthPhase cfg srv with
       | .error e => .error e
       | .ok (didAuth, method, ran) =>
         match setupEnc cfg.enc cfg.integ d.encryption d.negCrypto cfg.keyId cfg.keyId.isSome srv.key with
@@ -280,18 +287,20 @@ inductive SrvResult
   | failed (e : Err)
   | ok (o : Outcome) (advertised : Decision)
 
+/-- the authentication phase of the server (`handleServerAuthentication`): (method, user, exchanges) -/
+def serverAuthPhase (cfg : ServerCfg) (cli : ClientScript) (d : Decision) :
+    Except Err (String × String × List (String × Bool)) :=
+  if !d.authentication then .ok (authNone, "", [])
+  else match serverLoop cfg.methods cli.authOK cli.masks [] with
+    | .success m u ran => .ok (m, u, ran)
+    | .gaveUp _ => .error .refused
+    | .ioErr _ => .error .eof
+
 def serverFull (cfg : ServerCfg) (cli : ClientScript) (sid : String) : SrvResult :=
-  let (d, nerr) := negotiate ⟨cfg.auth, cfg.enc, cfg.methods, cfg.ciphers⟩ ⟨cli.auth, cli.enc, cli.methods, cli.ciphers⟩
-  match nerr with
-  | some e => .denied e d
-  | none =>
-    let authPhase : Except Err (String × String × List (String × Bool)) :=
-      if !d.authentication then .ok (authNone, "", [])
-      else match serverLoop cfg.methods cli.authOK cli.masks [] with
-        | .success m u ran => .ok (m, u, ran)
-        | .gaveUp _ => .error .refused
-        | .ioErr _ => .error .eof
-    match authPhase with
+  match (negotiate ⟨cfg.auth, cfg.enc, cfg.methods, cfg.ciphers⟩ ⟨cli.auth, cli.enc, cli.methods, cli.ciphers⟩) with
+  | (d, some e) => .denied e d
+  | (d, none) =>
+    match serverAuthPhase cfg cli d with
     | .error e => .failed e
     | .ok (method, user, ran) =>
       match setupEnc cfg.enc cfg.integ d.encryption d.negCrypto cfg.keyId cfg.keyId.isSome cli.key with
@@ -336,36 +345,39 @@ structure HonestResult where
   denied : Bool          -- the client received an explicit DENIED response
   deriving Repr
 
+/-- the authentication phase of two honest endpoints: (client error, server error) or
+    (authenticated?, method, exchanges) -/
+def honestAuthPhase (c : ClientCfg) (s : ServerCfg) (d : Decision) (credOK : String → Bool) :
+    Except (Err × Err) (Bool × String × List (String × Bool)) :=
+  if !d.authentication then
+    (if c.auth = lvlRequired then .error (.refused, .eof) else .ok (false, authNone, []))
+  else if s.methods = [] then .error (.refused, .eof)
+  else
+    let offered := c.methods.filter (fun m => s.methods.contains m && (!isTokenMethod m || c.tokenCompat))
+    if offered = [] then .error (.refused, .eof)
+    else match jointLoop offered s.methods credOK (offered.length + 1) (bitmaskOf offered) [] with
+      | .success m ran => .ok (true, m, ran)
+      | .clientExhausted _ => .error (.refused, .eof)
+      | .stuck _ => .error (.malformed, .eof)
+
+def keyKindOf : Option Nat → KeyKind
+  | some k => .good k
+  | none => .absent
+
 def honestRun (c : ClientCfg) (s : ServerCfg) (credOK : String → Bool) (user sid : String) : HonestResult :=
-  let (d, nerr) := negotiate ⟨s.auth, s.enc, s.methods, s.ciphers⟩ ⟨c.auth, c.enc, c.methods, c.ciphers⟩
-  match nerr with
-  | some _ => ⟨.error .refused, .error .refused, true⟩
-  | none =>
-    let yn (b : Bool) : String := if b then "YES" else "NO"
+  match negotiate ⟨s.auth, s.enc, s.methods, s.ciphers⟩ ⟨c.auth, c.enc, c.methods, c.ciphers⟩ with
+  | (_, some _) => ⟨.error .refused, .error .refused, true⟩
+  | (d, none) =>
     -- the client's own run of negotiateSecurity over the server's response
-    let (dc, cerr) := negotiate ⟨yn d.authentication, yn d.encryption, s.methods, s.ciphers⟩ ⟨c.auth, c.enc, c.methods, c.ciphers⟩
-    match cerr with
-    | some _ => ⟨.error .refused, .error .eof, false⟩
-    | none =>
-      let authPhase : Except (Err × Err) (Bool × String × List (String × Bool)) :=
-        if !d.authentication then
-          (if c.auth = lvlRequired then .error (.refused, .eof) else .ok (false, authNone, []))
-        else if s.methods = [] then .error (.refused, .eof)
-        else
-          let offered := c.methods.filter (fun m => s.methods.contains m && (!isTokenMethod m || c.tokenCompat))
-          if offered = [] then .error (.refused, .eof)
-          else match jointLoop offered s.methods credOK (offered.length + 1) (bitmaskOf offered) [] with
-            | .success m ran => .ok (true, m, ran)
-            | .clientExhausted _ => .error (.refused, .eof)
-            | .stuck _ => .error (.malformed, .eof)
-      match authPhase with
+    match negotiate ⟨if d.authentication then "YES" else "NO", if d.encryption then "YES" else "NO", s.methods, s.ciphers⟩
+                    ⟨c.auth, c.enc, c.methods, c.ciphers⟩ with
+    | (_, some _) => ⟨.error .refused, .error .eof, false⟩
+    | (dc, none) =>
+      match honestAuthPhase c s d credOK with
       | .error (ce, se) => ⟨.error ce, .error se, false⟩
       | .ok (didAuth, method, ran) =>
-        let peerOfClient : KeyKind := match s.keyId with | some k => .good k | none => .absent
-        let peerOfServer : KeyKind := match c.keyId with | some k => .good k | none => .absent
-        let ck := setupEnc c.enc c.integ dc.encryption dc.negCrypto c.keyId c.keyId.isSome peerOfClient
-        let sk := setupEnc s.enc s.integ d.encryption d.negCrypto s.keyId s.keyId.isSome peerOfServer
-        match ck, sk with
+        match setupEnc c.enc c.integ dc.encryption dc.negCrypto c.keyId c.keyId.isSome (keyKindOf s.keyId),
+              setupEnc s.enc s.integ d.encryption d.negCrypto s.keyId s.keyId.isSome (keyKindOf c.keyId) with
         | .ok kc, .ok ks =>
           let u := if didAuth then user else ""
           let so : Outcome := ⟨d.authentication, ks.isSome, method, u, sid, "", ks, ran⟩
